@@ -33,6 +33,12 @@ func (core *JApiCore) processContext(d *directive.Directive, root *[]*directive.
 						d.String(),
 					))
 				}
+				if core.HasUnclosedExplicitContext() {
+					// The implicit URL is nested in an explicitly opened context (e.g. a MACRO
+					// body): that context must not be left silently, so the URL just ends here.
+					core.currentContextDirective = core.currentContextDirective.Parent
+					continue
+				}
 				*root = append(*root, d)
 				core.currentContextDirective = d
 				return nil
